@@ -1,2 +1,39 @@
-(* C08 (statements follow) *)
-From GJS Require Import Base Regex Schema GoType Exec.
+(* C08 - enum values are exactly the accepted set.
+   Statements only; every proof is `exact <lemma>`; Print Assumptions under each. *)
+From GJS Require Import Base Regex Schema GoType Gen Exec Valid ExecP GenP CoreP.
+
+(* the enum method decodes into the carrier and accepts iff reflect.DeepEqual finds the value in the table *)
+Theorem C08_non_member : forall fmt_ok env f name c w vals j,
+  (forall f v, dec fmt_ok env f c j = Ok v -> existsb (enum_eq c v) vals = false) ->
+  is_ok (dec fmt_ok env f (TEnum name c w vals) j) = false.
+Proof. exact enum_rejects_non_member. Qed.
+Print Assumptions C08_non_member.
+Theorem C08_member : forall fmt_ok env f name c vals j v,
+  dec fmt_ok env f c j = Ok v -> existsb (enum_eq c v) vals = true -> dec fmt_ok env (S f) (TEnum name c false vals) j = Ok v.
+Proof. exact enum_accepts_member. Qed.
+Print Assumptions C08_member.
+
+(* on a string carrier table membership is JSON equality with one of the listed strings *)
+Theorem C08_string_membership : forall s vals,
+  existsb (enum_eq TString (GS s)) (map EVStr vals) = existsb (fun v => json_eqb (JStr s) (JStr v)) vals.
+Proof. intros s vals. induction vals as [|v r IH]; cbn; [reflexivity|]. rewrite IH. reflexivity. Qed.
+Print Assumptions C08_string_membership.
+(* on a float64 carrier: numeric equality by value *)
+Theorem C08_number_membership : forall q vals,
+  existsb (enum_eq TFloat (GF q)) (map EVFloat vals) = existsb (fun v => Qeq_bool q v) vals.
+Proof. intros q vals. induction vals as [|v r IH]; cbn; [reflexivity|]. rewrite IH. reflexivity. Qed.
+Print Assumptions C08_number_membership.
+(* on the plain int carrier: integer equality *)
+Theorem C08_int_membership : forall z vals,
+  existsb (enum_eq (TInt KInt) (GI z)) (map EVInt vals) = existsb (Z.eqb z) vals.
+Proof. intros z vals. induction vals as [|v r IH]; cbn; [reflexivity|]. rewrite IH. reflexivity. Qed.
+Print Assumptions C08_int_membership.
+
+(* refuted in full: with --min-sized-ints the carrier is a sized kind and never DeepEqual to the table's
+   `int` entries: every listed value is rejected (D15) *)
+Theorem C08_refuted_sized_carrier : exists k z, existsb (enum_eq (TInt k) (GI z)) [EVInt z] = false.
+Proof. exists KI8, 1%Z. reflexivity. Qed.
+(* refuted in full: null on a required enum listing the carrier's zero value is accepted (D39) *)
+Theorem C08_refuted_null_zero : exists vals, is_ok (dec (fun _ _ => true) [] 5 (TEnum [69]%N (TInt KInt) false vals) JNull) = true
+  /\ existsb (json_eqb JNull) [JInt 0; JInt 10] = false.
+Proof. exists [EVInt 0; EVInt 10]. vm_compute. split; reflexivity. Qed.
